@@ -299,9 +299,9 @@ func firstDiff(a, b []byte) int {
 }
 
 // restartCheck: a new process over the surviving disk.
-func restartCheck(res *sim.Result, what string, d *simos.Disk, p *plan.Plan, bin []byte, refPath string, ref []byte) bool {
-	// (1) the final name holds nothing or a complete entry
-	if b, ok := d.Content(refPath); ok && !bytes.Equal(b, ref) {
+func restartCheck(res *sim.Result, what string, d *simos.Disk, p *plan.Plan, bin []byte, refPath string, ref []byte, alsoOK ...[]byte) bool {
+	// (1) the final name holds nothing or a complete entry (or the stale entry that was there before the writer started)
+	if b, ok := d.Content(refPath); ok && !bytes.Equal(b, ref) && !(len(alsoOK) > 0 && bytes.Equal(b, alsoOK[0])) {
 		res.Fail("incomplete-entry-visible", "%s: the entry is visible under its final name but incomplete or different (%d bytes, reference %d bytes, first difference at %d)", what, len(b), len(ref), firstDiff(b, ref))
 		return false
 	}
@@ -356,6 +356,15 @@ func crashPoints(t *tape.Tape, cfg sim.Config, res *sim.Result, p *plan.Plan, bi
 		}
 	}
 	pts = append(pts, cp{len(log), -1}) // after the last syscall: no crash inside add
+	// in a third of the runs an entry written by another version sits under the final name: the
+	// writer then deletes it first (one more syscall); crash points cover that step too
+	var stale []byte
+	if t.Chance(1, 3) {
+		stale = append([]byte(nil), ref...)
+		stale[7] ^= 0x01
+		pts = append(pts, cp{len(log) + 1, -1})
+		res.Stat("probe.crash_enumeration_with_stale_entry", 1)
+	}
 	inside := 0
 	for _, pt := range pts {
 		d := simos.NewDisk()
@@ -364,8 +373,14 @@ func crashPoints(t *tape.Tape, cfg sim.Config, res *sim.Result, p *plan.Plan, bi
 		if err != nil {
 			panic(err)
 		}
+		if stale != nil {
+			d.Install(refPath, stale)
+		}
 		d.Arm()
 		d.CrashAt, d.CrashByte = pt.at, pt.byte
+		if stale != nil && pt.byte >= 0 {
+			d.CrashAt++ // the delete of the stale entry comes first: the write is one syscall later
+		}
 		_, cerr, crashed, at, pan := compileGuarded(w, bin)
 		simos.Current = nil
 		if pan != nil {
@@ -374,7 +389,7 @@ func crashPoints(t *tape.Tape, cfg sim.Config, res *sim.Result, p *plan.Plan, bi
 		}
 		what := fmt.Sprintf("crash point #%d byte %d (%s)", pt.at, pt.byte, at)
 		if !crashed {
-			if pt.at < len(log) {
+			if pt.at < len(log) && stale == nil {
 				res.Fail("crash-point-not-reached", "%s: the add operation made fewer syscalls than in the reference run (err=%v)", what, cerr)
 				return
 			}
@@ -384,7 +399,7 @@ func crashPoints(t *tape.Tape, cfg sim.Config, res *sim.Result, p *plan.Plan, bi
 			res.Stat("fault.crash_"+map[bool]string{true: "inside_write", false: "before_syscall"}[pt.byte >= 0], 1)
 		}
 		// process death
-		if !restartCheck(res, what+" / process death", d.AfterProcessDeath(), p, bin, refPath, ref) {
+		if !restartCheck(res, what+" / process death", d.AfterProcessDeath(), p, bin, refPath, ref, stale) {
 			return
 		}
 		// power loss: all directory ops persisted, none, and two sampled subsets
@@ -396,7 +411,7 @@ func crashPoints(t *tape.Tape, cfg sim.Config, res *sim.Result, p *plan.Plan, bi
 		}
 		for mi, ch := range models {
 			res.Stat("fault.power_loss_model", 1)
-			if !restartCheck(res, fmt.Sprintf("%s / power loss (persistence choice %d)", what, mi), d.AfterPowerLoss(ch), p, bin, refPath, ref) {
+			if !restartCheck(res, fmt.Sprintf("%s / power loss (persistence choice %d)", what, mi), d.AfterPowerLoss(ch), p, bin, refPath, ref, stale) {
 				return
 			}
 		}
